@@ -113,6 +113,14 @@ func NewWorld(cfg Config) (*World, error) {
 		u.DNS = [][]byte{dns}
 	case 2:
 		u.DNS = [][]byte{dns, ContractAddr(41, 1%cfg.NumShards)}
+	default:
+		if cfg.NumDNS > 2 {
+			// a network-sized registry (the live one has 256 addresses)
+			u.DNS = nil
+			for i := 0; i < cfg.NumDNS; i++ {
+				u.DNS = append(u.DNS, ContractAddr(40+i, uint32(i)%cfg.NumShards))
+			}
+		}
 	}
 	for i := 0; i < 2; i++ {
 		u.MetaAddrs = append(u.MetaAddrs, MetaContractAddr(i))
@@ -205,7 +213,7 @@ func NewWorld(cfg Config) (*World, error) {
 		intruder = string(u.Users[0])
 	}
 	for s := uint32(0); s < cfg.NumShards; s++ {
-		nd, err := NewNode(s, cfg.NumShards, NodeCfg{DNS: dnsList, EnableUserNameChange: cfg.NameChange, ActivationEpoch: cfg.ActivationEpoch, LateSchedule: cfg.LateSchedule, DNSIntruder: intruder},
+		nd, err := NewNode(s, cfg.NumShards, NodeCfg{DNS: dnsList, EnableUserNameChange: cfg.NameChange, ActivationEpoch: cfg.ActivationEpoch, LateSchedule: cfg.LateSchedule, DNSIntruder: intruder, TypedNilAccounts: cfg.TypedNilAccounts},
 			RandSchedule(sr, 0), cfg.StartEpoch, payTable)
 		if err != nil {
 			// the factory refused a valid configuration (or could not build its container): there is no
